@@ -18,7 +18,10 @@ RULE = ("seeded expression trees (depth <= 3 quick, <= 5 thorough) over 9 quanti
         "plus streams: empty quantities, quantities written directly as dicts (two units of one type, zero "
         "exponents, zero totals), zero divisors, units with an affine offset inside products; "
         "distinct = distinct (op, operand quantities, exact values); non-trivial = the operation succeeded "
-        "on two different quantities (for **: n >= 2)")
+        "on two different quantities (for **: n >= 2); "
+        "Array leg: 30% of the multiplications are also evaluated with Arrays (float64 ndarray / list / tuple, 2-3 "
+        "elements) on ONE pair of operand objects reused for a*b, b*a, a*b again, (a*b)/b, a/b, a//b; every element "
+        "of every step is a case")
 EXHAUSTIVE = {"quick": False, "thorough": False}
 ASSUMPTIONS = ["float results stay within K*eps*M (K=64) of the exact model: checked on every run, not proved",
                "float // is compared with the exact floor except when the exact quotient is within K*eps*M of an integer",
